@@ -16,6 +16,7 @@ theorem pin_conversion_writeDialect : Gen.src_conversion_writeDialect = Expect.s
 theorem pin_conversion_writeEnum : Gen.src_conversion_writeEnum = Expect.src_conversion_writeEnum := rfl
 theorem pin_conversion_writeMessage : Gen.src_conversion_writeMessage = Expect.src_conversion_writeMessage := rfl
 theorem pin_conversion_Convert : Gen.src_conversion_Convert = Expect.src_conversion_Convert := rfl
+theorem pin_conversion_goFileName : Gen.src_conversion_goFileName = Expect.src_conversion_goFileName := rfl
 theorem pin_conversion_definitionMessage_UnmarshalXML : Gen.src_conversion_definitionMessage_UnmarshalXML = Expect.src_conversion_definitionMessage_UnmarshalXML := rfl
 theorem pin_conversion_definitionDecode : Gen.src_conversion_definitionDecode = Expect.src_conversion_definitionDecode := rfl
 theorem pin_conversion_var_tplDialect : Gen.src_conversion_var_tplDialect = Expect.src_conversion_var_tplDialect := rfl
